@@ -44,6 +44,7 @@ type c24Reg struct {
 	call    ssa.CallInstruction
 	pattern string
 	handler ssa.Value
+	hframe  *c24Frame
 	flags   map[string]bool // flag name -> polarity required for this registration
 	ord     int
 }
@@ -53,11 +54,14 @@ type c24Ctx struct {
 	r   *kit.Report
 	fns []*ssa.Function
 
-	validators map[*ssa.Function]bool
-	ctor       *ssa.Function
-	mux        ssa.Value
-	mw         *ssa.Function // the auth middleware constructor (called on the token edge)
-	regs       []*c24Reg
+	validators   map[*ssa.Function]bool
+	ctor         *ssa.Function
+	mux          ssa.Value
+	mw           *ssa.Function   // first auth middleware function (diagnostics)
+	mwFns        []*ssa.Function // request-serving functions of the auth middleware (closure or ServeHTTP method)
+	regs         []*c24Reg
+	ev           *c24Eval
+	exemptSlices map[*ssa.Global]bool
 
 	exemptGlobals map[*ssa.Global]bool
 	exemptConsts  map[string]bool
@@ -84,7 +88,8 @@ func runC24(p *kit.Program, r *kit.Report) {
 	r.Rule("C24.R4", "the token validator returns true only after bcrypt.CompareHashAndPassword(TokenHash, token) == nil or on equality of the token digest with a cache field that is written only after such a success")
 	r.Rule("C24.R5", "for every combination of endpoint-group flags, each pattern registered on a flag's enabled edge resolves (http.ServeMux precedence) in the disabled configuration to a handler that only answers 404; documented group prefixes are registered only under their flag")
 	r.Rule("C24.R6", "the agent fills TokenHash and the three group flags of health.ServerConfig from HTTPConfig: TokenHash from HTTP.TokenHash, each flag from an accessor that is false when Minimal is set or the explicit setting is false")
-	cx := &c24Ctx{p: p, r: r, validators: map[*ssa.Function]bool{}, exemptGlobals: map[*ssa.Global]bool{}, exemptConsts: map[string]bool{}}
+	cx := &c24Ctx{p: p, r: r, validators: map[*ssa.Function]bool{}, exemptGlobals: map[*ssa.Global]bool{}, exemptSlices: map[*ssa.Global]bool{}, exemptConsts: map[string]bool{}}
+	cx.ev = &c24Eval{cx: cx}
 	cx.fns = p.FuncsInPkg(c24Pkg)
 	if !r.Require(len(cx.fns) > 0, "anchor-unresolved: package %s not loaded", c24Pkg) {
 		return
@@ -147,10 +152,33 @@ func (cx *c24Ctx) flagOf(v ssa.Value) (string, bool) {
 	return f.Name(), true
 }
 
-// collectRegs walks fn for registrations on mux (a value of fn), following package-local
-// helpers that receive the mux, with the flag context accumulated from dominating guards.
-func (cx *c24Ctx) collectRegs(fn *ssa.Function, mux ssa.Value, ctx map[string]bool, depth int, seen map[ssa.CallInstruction]bool) {
-	for _, c := range kit.Calls(fn) {
+// returnsHandler: fn's first result is an http.Handler / HandlerFunc (a wrapper, judged by R3).
+func c24ReturnsHandler(fn *ssa.Function) bool {
+	res := fn.Signature.Results()
+	return res.Len() >= 1 && (c24Named(res.At(0).Type(), "net/http", "Handler") || c24Named(res.At(0).Type(), "net/http", "HandlerFunc"))
+}
+
+// applyConds merges conditions into a flag context; ok=false when they contradict.
+func c24ApplyConds(flags map[string]bool, conds []c24Cond) bool {
+	for _, c := range conds {
+		if c.empty || c.flag == "" {
+			continue
+		}
+		if old, had := flags[c.flag]; had && old != c.pol {
+			return false
+		}
+		flags[c.flag] = c.pol
+	}
+	return true
+}
+
+// collectRegs walks the frame's function for registrations on mux (a value of that function),
+// following package-local helpers that receive the mux. Patterns and handlers are resolved
+// through locals, struct literals and loops over constant tables; the flag context is
+// accumulated from dominating guards (bool parameters are resolved to the caller's argument).
+func (cx *c24Ctx) collectRegs(fr *c24Frame, mux ssa.Value, ctx map[string]bool, depth int, seen map[ssa.CallInstruction]bool) {
+	ev := cx.ev
+	for _, c := range kit.Calls(fr.fn) {
 		cal := kit.CalleeOf(c)
 		args := c.Common().Args
 		hasMux := false
@@ -166,39 +194,54 @@ func (cx *c24Ctx) collectRegs(fn *ssa.Function, mux ssa.Value, ctx map[string]bo
 		for k, v := range ctx {
 			flags[k] = v
 		}
-		conflict := false
-		for _, g := range kit.GuardsOf(c) {
-			f := kit.G8Norm(g.Cond, g.Polarity)
-			if f.Nil {
-				continue
-			}
-			if name, ok := cx.flagOf(f.V); ok {
-				if old, had := flags[name]; had && old != f.Pol {
-					conflict = true
-				}
-				flags[name] = f.Pol
-			}
-		}
-		if conflict {
-			continue // unreachable
+		conds, inf := ev.condsAt(c.Block(), nil, fr)
+		if inf || !c24ApplyConds(flags, conds) {
+			continue // unreachable in this activation
 		}
 		switch {
 		case (c24IsHTTP(cal, "ServeMux", "Handle") || c24IsHTTP(cal, "ServeMux", "HandleFunc")) && kit.G8Unwrap(kit.Receiver(c)) == mux:
 			seen[c] = true
-			pat, ok := kit.ConstString(kit.Arg(c, 0))
-			if !ok {
-				cx.r.Floor("anchor-unresolved: non-constant ServeMux pattern at %s", cx.p.Pos(c.Pos()))
+			ev.budget = 200000
+			pats, allConst := ev.constStrings(kit.Arg(c, 0), fr, c24Alt{choice: map[*ssa.Alloc]int64{}})
+			if !allConst || len(pats) == 0 {
+				cx.r.Floor("anchor-unresolved: ServeMux pattern at %s cannot be resolved to constants", cx.p.Pos(c.Pos()))
 				continue
 			}
-			if strings.ContainsAny(pat, " {") || !strings.HasPrefix(pat, "/") {
-				cx.r.Floor("anchor-unresolved: ServeMux pattern %q uses method/host/wildcard syntax not modelled by C24.R5", pat)
-				continue
+			for _, pa := range pats {
+				pat, _ := kit.ConstString(pa.v)
+				if strings.ContainsAny(pat, " {") || !strings.HasPrefix(pat, "/") {
+					cx.r.Floor("anchor-unresolved: ServeMux pattern %q uses method/host/wildcard syntax not modelled by C24.R5", pat)
+					continue
+				}
+				pflags := map[string]bool{}
+				for k, v := range flags {
+					pflags[k] = v
+				}
+				if pa.infeasible || !c24ApplyConds(pflags, pa.conds) {
+					continue
+				}
+				// the handler, in the same table row
+				ev.leaves(kit.Arg(c, 1), fr, c24Alt{choice: pa.choice}, 0, func(h c24Alt) {
+					hflags := map[string]bool{}
+					for k, v := range pflags {
+						hflags[k] = v
+					}
+					if h.infeasible || !c24ApplyConds(hflags, h.conds) {
+						return
+					}
+					cx.regs = append(cx.regs, &c24Reg{call: c, pattern: pat, handler: h.v, hframe: h.fr, flags: hflags})
+				})
 			}
-			cx.regs = append(cx.regs, &c24Reg{call: c, pattern: pat, handler: kit.Arg(c, 1), flags: flags})
-		case cal.Static != nil && kit.FuncPkgPath(cal.Static) == kit.PkgPath(c24Pkg) && depth < 3 && cal.Static != cx.mw:
+		case cal.Static != nil && kit.FuncPkgPath(cal.Static) == kit.PkgPath(c24Pkg) && cal.Static.Blocks != nil && depth < 4 && !c24ReturnsHandler(cal.Static):
+			nf := &c24Frame{fn: cal.Static, bind: map[ssa.Value]ssa.Value{}, parent: fr, site: c}
+			for i, a := range args {
+				if i < len(cal.Static.Params) {
+					nf.bind[cal.Static.Params[i]] = a
+				}
+			}
 			for i, a := range args {
 				if kit.G8Unwrap(a) == mux && i < len(cal.Static.Params) {
-					cx.collectRegs(cal.Static, cal.Static.Params[i], flags, depth+1, seen)
+					cx.collectRegs(nf, cal.Static.Params[i], flags, depth+1, seen)
 				}
 			}
 		}
@@ -285,19 +328,7 @@ func (cx *c24Ctx) ruleR3() {
 	if len(stores) == 0 {
 		r.Violation("C24.R3", ctorName+" server handler", p.Pos(cx.ctor.Pos()), "http.Server.Handler is never set: the server falls back to http.DefaultServeMux (pprof registers itself there) without auth or gating")
 	}
-	// the middleware: the package-local function the constructor applies to the mux
-	for _, c := range kit.Calls(cx.ctor) {
-		cal := kit.CalleeOf(c)
-		cv, isCall := c.(*ssa.Call)
-		if !isCall || cal.Static == nil || kit.FuncPkgPath(cal.Static) != kit.PkgPath(c24Pkg) || !c24Named(cv.Type(), "net/http", "Handler") {
-			continue
-		}
-		for _, a := range cv.Call.Args {
-			if kit.G8Unwrap(a) == cx.mux && cx.mw == nil {
-				cx.mw = cal.Static
-			}
-		}
-	}
+	cx.findMiddleware()
 	for i, hs := range stores {
 		key := fmt.Sprintf("%s server handler #%d", kit.FuncName(hs.st.Parent()), i+1)
 		pos := p.Pos(hs.st.Pos())
@@ -308,12 +339,13 @@ func (cx *c24Ctx) ruleR3() {
 		ok, why := cx.checkHandlerValue(hs.st.Val, hs.st)
 		r.Decide(ok, "C24.R3", key, pos, "handler is middleware(mux) on every path where TokenHash may be non-empty, the mux itself otherwise", why)
 	}
-	if !r.Require(cx.mw != nil, "anchor-unresolved: no auth middleware call wraps the mux in %s", ctorName) {
+	if !r.Require(len(cx.mwFns) > 0, "anchor-unresolved: no auth middleware (a handler that consults the token validator and invokes a wrapped handler) in %s", c24Pkg) {
 		return
 	}
+	cx.mw = cx.mwFns[0]
 	// registrations: all on the single mux
 	seen := map[ssa.CallInstruction]bool{}
-	cx.collectRegs(cx.ctor, cx.mux, map[string]bool{}, 0, seen)
+	cx.collectRegs(&c24Frame{fn: cx.ctor, bind: map[ssa.Value]ssa.Value{}}, cx.mux, map[string]bool{}, 0, seen)
 	for i, rg := range cx.regs {
 		rg.ord = i + 1
 	}
@@ -420,7 +452,7 @@ func (cx *c24Ctx) checkMuxUses(fn *ssa.Function, mux ssa.Value, depth int) {
 					continue
 				}
 				if cal.Static != nil && kit.FuncPkgPath(cal.Static) == kit.PkgPath(c24Pkg) {
-					if cal.Static != cx.mw && depth < 3 {
+					if !c24ReturnsHandler(cal.Static) && depth < 4 {
 						for i, a := range x.Common().Args {
 							if a == v && i < len(cal.Static.Params) {
 								cx.checkMuxUses(cal.Static, cal.Static.Params[i], depth+1)
@@ -438,90 +470,189 @@ func (cx *c24Ctx) checkMuxUses(fn *ssa.Function, mux ssa.Value, depth int) {
 	visit(mux)
 }
 
-// checkHandlerValue: every phi leaf of the stored handler is either middleware(...mux...)
-// or, on an edge where TokenHash == "" is established, the mux itself.
-func (cx *c24Ctx) checkHandlerValue(v ssa.Value, at *ssa.Store) (bool, string) {
-	type leaf struct {
-		v   ssa.Value
-		via []kit.Edge
+// servingFunc: the function that serves requests for handler value v when v is a closure or a
+// (pointer to a) struct whose type has a ServeHTTP method; nil otherwise.
+func (cx *c24Ctx) servingFunc(v ssa.Value) *ssa.Function {
+	switch x := v.(type) {
+	case *ssa.MakeClosure:
+		f, _ := x.Fn.(*ssa.Function)
+		return f
+	case *ssa.Function:
+		return x
 	}
-	var leaves []leaf
-	seen := map[ssa.Value]bool{}
-	var expand func(v ssa.Value, via []kit.Edge)
-	expand = func(v ssa.Value, via []kit.Edge) {
-		v = kit.G8Unwrap(v)
-		// local variable spill
-		if u, ok := v.(*ssa.UnOp); ok && u.Op == token.MUL {
-			if _, isAlloc := u.X.(*ssa.Alloc); isAlloc {
-				leaves = append(leaves, leaf{v, via}) // not followed: judged as "other"
-				return
-			}
+	t := v.Type()
+	if _, isAlloc := v.(*ssa.Alloc); !isAlloc {
+		if _, isStruct := t.Underlying().(*types.Struct); !isStruct {
+			return nil
 		}
-		if ph, ok := v.(*ssa.Phi); ok {
-			if seen[ph] {
-				return
-			}
-			seen[ph] = true
-			for i, e := range ph.Edges {
-				expand(e, append([]kit.Edge{{From: ph.Block().Preds[i], To: ph.Block()}}, via...))
-			}
-			return
-		}
-		leaves = append(leaves, leaf{v, via})
 	}
-	expand(v, nil)
-	for _, l := range leaves {
-		if c, ok := l.v.(*ssa.Call); ok && l.v != cx.mux {
-			cal := kit.CalleeOf(c)
-			if cal.Static != nil && kit.FuncPkgPath(cal.Static) == kit.PkgPath(c24Pkg) && cx.wrapsMux(c) {
-				if cx.mw != nil && cx.mw != cal.Static {
-					return false, "two different wrappers produce the server handler; only one auth middleware is analysed"
+	for _, tt := range []types.Type{t, types.NewPointer(t)} {
+		ms := cx.p.SSA.MethodSets.MethodSet(tt)
+		for i := 0; i < ms.Len(); i++ {
+			if ms.At(i).Obj().Name() == "ServeHTTP" {
+				if f := cx.p.SSA.MethodValue(ms.At(i)); f != nil && f.Blocks != nil {
+					return f
 				}
-				cx.mw = cal.Static
-				continue
 			}
-			return false, "the server handler is produced by a call that does not wrap the package's ServeMux: requests reach handlers the auth middleware never sees"
 		}
-		if l.v == cx.mux {
-			// must come along an edge where TokenHash == "" holds
-			w := kit.G8Witness{Fn: cx.ctor, Via: l.via}
-			if !cx.passesTo(w, at.Block(), cx.isEmptyTokenFact) {
-				return false, "the unwrapped ServeMux becomes the server handler on a path where TokenHash may be non-empty: with a token configured, requests are served without any token check"
-			}
+	}
+	return nil
+}
+
+// reachesValidator: f (or package-local callees, 2 levels) calls a token validator.
+func (cx *c24Ctx) reachesValidator(f *ssa.Function, depth int) bool {
+	for _, c := range kit.Calls(f) {
+		cal := kit.CalleeOf(c)
+		if cal.Static == nil {
 			continue
 		}
-		return false, "the server handler is neither middleware(mux) nor the mux (nil falls back to http.DefaultServeMux, which carries pprof): the API is served without the auth wrapper"
-	}
-	return true, ""
-}
-
-// passesTo: every path entry -> via edges -> block takes an accepted edge.
-func (cx *c24Ctx) passesTo(w kit.G8Witness, blk *ssa.BasicBlock, acc func(kit.G8Fact) bool) bool {
-	blocked := kit.G8AcceptingEdges(w.Fn, acc)
-	start := w.Fn.Blocks[0]
-	for _, e := range w.Via {
-		if !kit.Reach(start, blocked, nil)[e.From] || blocked[e] {
+		if cx.validators[cal.Static] {
 			return true
 		}
-		start = e.To
-	}
-	return !kit.Reach(start, blocked, nil)[blk]
-}
-
-// wrapsMux: some argument of the call is the mux (possibly through package-local wrappers).
-func (cx *c24Ctx) wrapsMux(c *ssa.Call) bool {
-	for _, a := range c.Call.Args {
-		a = kit.G8Unwrap(a)
-		if a == cx.mux {
+		if depth < 2 && cal.Static.Blocks != nil && kit.FuncPkgPath(cal.Static) == kit.PkgPath(c24Pkg) && cx.reachesValidator(cal.Static, depth+1) {
 			return true
 		}
-		if inner, ok := a.(*ssa.Call); ok {
-			if cal := kit.CalleeOf(inner); cal.Static != nil && kit.FuncPkgPath(cal.Static) == kit.PkgPath(c24Pkg) && cx.wrapsMux(inner) {
+	}
+	return false
+}
+
+func c24IsRequestHandlerSig(f *ssa.Function) bool {
+	hasW, hasR := false, false
+	for _, prm := range f.Params {
+		if c24Named(prm.Type(), "net/http", "ResponseWriter") {
+			hasW = true
+		}
+		if c24Named(prm.Type(), "net/http", "Request") {
+			hasR = true
+		}
+	}
+	return hasW && hasR
+}
+
+func (cx *c24Ctx) addMw(f *ssa.Function) {
+	for _, g := range cx.mwFns {
+		if g == f {
+			return
+		}
+	}
+	cx.mwFns = append(cx.mwFns, f)
+}
+
+// findMiddleware locates the auth middleware by role: request-serving functions of the package
+// (closures or ServeHTTP methods) that invoke a wrapped handler's ServeHTTP and consult the
+// token validator.
+func (cx *c24Ctx) findMiddleware() {
+	for _, f := range cx.fns {
+		if !c24IsRequestHandlerSig(f) {
+			continue
+		}
+		deleg := false
+		for _, c := range kit.Calls(f) {
+			if c24IsServeHTTP(c) {
+				deleg = true
+			}
+		}
+		if deleg && cx.reachesValidator(f, 0) {
+			cx.addMw(f)
+		}
+	}
+}
+
+// resolvesToMux: some alternative of v is the package's ServeMux.
+func (cx *c24Ctx) resolvesToMux(v ssa.Value, fr *c24Frame) bool {
+	hit := false
+	cx.ev.budget = 20000
+	cx.ev.leaves(v, fr, c24Alt{choice: map[*ssa.Alloc]int64{}}, 0, func(a c24Alt) {
+		if a.v == cx.mux {
+			hit = true
+		}
+	})
+	return hit
+}
+
+// wrapsMuxValue: the middleware value (closure / struct) holds the mux as its wrapped handler.
+func (cx *c24Ctx) wrapsMuxValue(v ssa.Value, fr *c24Frame) bool {
+	switch x := v.(type) {
+	case *ssa.MakeClosure:
+		for _, b := range x.Bindings {
+			if cx.resolvesToMux(b, fr) {
 				return true
+			}
+			if a, ok := b.(*ssa.Alloc); ok {
+				found := false
+				cx.ev.budget = 20000
+				cx.ev.read(a, nil, fr, c24Alt{choice: map[*ssa.Alloc]int64{}}, 0, func(al c24Alt) {
+					if al.v == cx.mux {
+						found = true
+					}
+				})
+				if found {
+					return true
+				}
+			}
+		}
+	case *ssa.Alloc:
+		if x.Referrers() == nil {
+			return false
+		}
+		for _, ref := range *x.Referrers() {
+			fa, ok := ref.(*ssa.FieldAddr)
+			if !ok || fa.Referrers() == nil {
+				continue
+			}
+			for _, r2 := range *fa.Referrers() {
+				if st, ok := r2.(*ssa.Store); ok && st.Addr == fa && cx.resolvesToMux(st.Val, fr) {
+					return true
+				}
 			}
 		}
 	}
 	return false
+}
+
+// checkHandlerValue: every alternative of the stored handler (followed through package-local
+// wrapper functions) is either an auth middleware around the mux or, under an established
+// TokenHash == "" condition, the mux itself.
+func (cx *c24Ctx) checkHandlerValue(v ssa.Value, at *ssa.Store) (bool, string) {
+	ev := &c24Eval{cx: cx, budget: 200000}
+	ev.intoCalls = func(f *ssa.Function) bool { return c24ReturnsHandler(f) }
+	var alts []c24Alt
+	ev.leaves(v, &c24Frame{fn: cx.ctor, bind: map[ssa.Value]ssa.Value{}}, c24Alt{choice: map[*ssa.Alloc]int64{}}, 0, func(a c24Alt) {
+		if !a.infeasible {
+			alts = append(alts, a)
+		}
+	})
+	if len(alts) == 0 {
+		return false, "the server handler cannot be resolved"
+	}
+	for _, a := range alts {
+		if a.v == cx.mux {
+			empty := false
+			for _, c := range a.conds {
+				if c.empty && c.pol {
+					empty = true
+				}
+			}
+			if !empty {
+				return false, "the unwrapped ServeMux becomes the server handler on a path where TokenHash may be non-empty: with a token configured, requests are served without any token check"
+			}
+			continue
+		}
+		if f := cx.servingFunc(a.v); f != nil && c24IsRequestHandlerSig(f) {
+			deleg := false
+			for _, c := range kit.Calls(f) {
+				if c24IsServeHTTP(c) {
+					deleg = true
+				}
+			}
+			if deleg && cx.wrapsMuxValue(a.v, a.fr) {
+				cx.addMw(f) // judged by R1 whether or not it consults the validator
+				continue
+			}
+		}
+		return false, "the server handler is neither an auth middleware around the package's ServeMux nor the mux itself (nil falls back to http.DefaultServeMux, which carries pprof): requests reach handlers the auth middleware never sees"
+	}
+	return true, ""
 }
 
 // ---------------------------------------------------------------- R1 / R2
@@ -630,6 +761,28 @@ func (cx *c24Ctx) authAccept(env *c24Env, depth int) func(kit.G8Fact) bool {
 			return false
 		}
 		cal := kit.CalleeOf(c)
+		// (b') exempt hit by membership in a package-level constant slice
+		if cal.Pkg == "slices" && (cal.Name == "Contains" || cal.Name == "Index") && len(c.Call.Args) == 2 {
+			if cal.Name == "Index" {
+				return false // used through a comparison; not an accepted idiom
+			}
+			u, ok := c.Call.Args[0].(*ssa.UnOp)
+			if !ok || u.Op != token.MUL {
+				return false
+			}
+			g, ok := u.X.(*ssa.Global)
+			if !ok || g.Pkg == nil || g.Pkg.Pkg.Path() != kit.PkgPath(c24Pkg) || !f.Pol {
+				return false
+			}
+			if env.isPath(c.Call.Args[1]) {
+				cx.exemptSlices[g] = true
+				return true
+			}
+			if env.fromReq(c.Call.Args[1]) {
+				cx.noteInexact(c.Pos(), "the exempt list is searched with a transformed request path")
+			}
+			return false
+		}
 		// inexact string predicates on the path used as exemption
 		if cal.Pkg == "strings" || cal.Pkg == "path" || cal.Pkg == "regexp" || cal.Pkg == "path/filepath" {
 			for _, a := range c.Call.Args {
@@ -707,13 +860,28 @@ func c24IsServeHTTP(c ssa.CallInstruction) bool {
 	return cal.Name == "ServeHTTP" && cal.Pkg == "net/http"
 }
 
+// mwAll: the middleware's request-serving functions with their nested closures.
+func (cx *c24Ctx) mwAll() []*ssa.Function {
+	seen := map[*ssa.Function]bool{}
+	var out []*ssa.Function
+	for _, m := range cx.mwFns {
+		for _, f := range kit.WithClosures(m) {
+			if !seen[f] {
+				seen[f] = true
+				out = append(out, f)
+			}
+		}
+	}
+	return out
+}
+
 func (cx *c24Ctx) ruleR1() {
 	p, r := cx.p, cx.r
 	if cx.mw == nil {
 		return
 	}
 	n := 0
-	for _, f := range kit.WithClosures(cx.mw) {
+	for _, f := range cx.mwAll() {
 		env := c24EnvFor(f)
 		k := 0
 		for _, c := range kit.Calls(f) {
@@ -736,7 +904,7 @@ func (cx *c24Ctx) ruleR1() {
 	r.Count("middleware_delegation_sites", n)
 	// the request URL must not be rewritten between the decision and the dispatch
 	nw := 0
-	for _, f := range kit.WithClosures(cx.mw) {
+	for _, f := range cx.mwAll() {
 		kit.Instrs(f, func(in ssa.Instruction) {
 			st, ok := in.(*ssa.Store)
 			if !ok {
@@ -757,8 +925,12 @@ func (cx *c24Ctx) ruleR1() {
 	r.Require(n >= 1, "anchor-unresolved: the auth middleware %s never invokes the wrapped handler", kit.FuncName(cx.mw))
 	// ServeHTTP delegations elsewhere in the package are listed (they are behind the wrapper
 	// as long as R3 holds)
+	inMw := map[*ssa.Function]bool{}
+	for _, f := range cx.mwAll() {
+		inMw[f] = true
+	}
 	for _, f := range cx.fns {
-		if kit.TopLevel(f) == cx.mw {
+		if inMw[f] {
 			continue
 		}
 		for _, c := range kit.Calls(f) {
@@ -829,6 +1001,64 @@ func (cx *c24Ctx) ruleR2() {
 			have[k] = true
 		}
 		r.Count("exempt_map_entries", len(inits))
+	}
+	for g := range cx.exemptSlices {
+		gname := g.Name()
+		st := cx.globalInitStore(g)
+		n := 0
+		if st != nil {
+			cx.ev.budget = 20000
+			cx.ev.arrayOf(st.Val, nil, c24Alt{choice: map[*ssa.Alloc]int64{}}, 0, func(arr *ssa.Alloc, _ *c24Frame, _ c24Alt) {
+				if arr.Referrers() == nil {
+					return
+				}
+				for _, ref := range *arr.Referrers() {
+					ia, ok := ref.(*ssa.IndexAddr)
+					if !ok || ia.Referrers() == nil {
+						continue
+					}
+					for _, r2 := range *ia.Referrers() {
+						if es, ok := r2.(*ssa.Store); ok && es.Addr == ia {
+							n++
+							if k, isC := kit.ConstString(es.Val); isC {
+								have[k] = true
+							} else {
+								r.Violation("C24.R2", "exempt list "+gname+" non-constant entry", p.Pos(es.Pos()), "an exempt entry is computed: the exempt set cannot be the fixed five paths")
+							}
+						}
+					}
+				}
+			})
+		}
+		if st == nil || n == 0 {
+			r.Violation("C24.R2", "exempt list "+gname+" initialiser", p.Pos(g.Pos()), "the exempt list is not a constant literal: the exempt set cannot be the fixed five paths")
+		}
+		r.Count("exempt_list_entries", n)
+		for _, f := range p.RepoFuncs() {
+			kit.Instrs(f, func(in ssa.Instruction) {
+				switch x := in.(type) {
+				case *ssa.Store:
+					if x.Addr == g {
+						r.Violation("C24.R2", "exempt list "+gname+" reassigned in "+kit.FuncName(f), p.Pos(x.Pos()), "the exempt list is replaced or extended at run time: the exempt set is no longer the fixed five paths")
+					}
+					if ia, ok := x.Addr.(*ssa.IndexAddr); ok {
+						if u, ok := ia.X.(*ssa.UnOp); ok && u.Op == token.MUL && u.X == g {
+							r.Violation("C24.R2", "exempt list "+gname+" element written in "+kit.FuncName(f), p.Pos(x.Pos()), "an element of the exempt list is overwritten at run time: that path bypasses the token check")
+						}
+					}
+				case ssa.CallInstruction:
+					cal := kit.CalleeOf(x)
+					for _, a := range x.Common().Args {
+						if u, ok := a.(*ssa.UnOp); ok && u.Op == token.MUL && u.X == g {
+							if cal.Built == "len" || cal.Built == "cap" || (cal.Pkg == "slices" && (cal.Name == "Contains" || cal.Name == "Index")) {
+								continue
+							}
+							r.Violation("C24.R2", "exempt list "+gname+" passed to "+cal.String()+" in "+kit.FuncName(f), p.Pos(x.Pos()), "the exempt list escapes to code that can modify it: the exempt set is not fixed")
+						}
+					}
+				}
+			})
+		}
 	}
 	r.Require(len(have) > 0, "anchor-unresolved: no exempt-path test found in the auth middleware")
 	spec := map[string]bool{}
@@ -968,8 +1198,12 @@ func (cx *c24Ctx) validatorAccept(env *c24TokEnv, cacheFields map[*types.Var]boo
 		var a, b ssa.Value
 		switch x := f.V.(type) {
 		case *ssa.BinOp:
-			k, isK := kit.ConstInt(x.Y)
-			if c, ok := x.X.(*ssa.Call); ok && isK && kit.CalleeOf(c).Is("crypto/subtle", "", "ConstantTimeCompare") {
+			xl, xr := x.X, x.Y
+			if _, isConst := xl.(*ssa.Const); isConst {
+				xl, xr = xr, xl
+			}
+			k, isK := kit.ConstInt(xr)
+			if c, ok := xl.(*ssa.Call); ok && isK && kit.CalleeOf(c).Is("crypto/subtle", "", "ConstantTimeCompare") {
 				if !((x.Op == token.EQL && k == 1 && f.Pol) || (x.Op == token.NEQ && k == 1 && !f.Pol)) {
 					return false
 				}
@@ -1787,5 +2021,62 @@ var c24SelfTests = []SelfTest{
 	}},
 	{Name: "clients remembered by address skip the token check", ExpectRule: "C24.R1", ExpectKey: "delegation", Edits: []Edit{
 		{File: c24File, Old: "\t\ttoken := extractBearerToken(r)\n", New: "\t\tif r.RemoteAddr == s.cfg.Address {\n\t\t\tnext.ServeHTTP(w, r)\n\t\t\treturn\n\t\t}\n\t\ttoken := extractBearerToken(r)\n"},
+	}},
+	// ---- round 3: refactoring classes (named middleware type, constant tables, helpers)
+	{Name: "rewrite: middleware as a named handler type with ServeHTTP", Edits: []Edit{
+		{File: c24File, Old: "func (s *Server) requireAuth(next http.Handler) http.Handler {\n\treturn http.HandlerFunc(func(w http.ResponseWriter, r *http.Request) {", New: "type tokenGate struct {\n\tsrv  *Server\n\tnext http.Handler\n}\n\nfunc (s *Server) requireAuth(next http.Handler) http.Handler {\n\treturn &tokenGate{srv: s, next: next}\n}\n\nfunc (g *tokenGate) ServeHTTP(w http.ResponseWriter, r *http.Request) {\n\ts, next := g.srv, g.next\n\t{"},
+		{File: c24File, Old: "\t\tnext.ServeHTTP(w, r)\n\t})\n}", New: "\t\tnext.ServeHTTP(w, r)\n\t}\n}"},
+	}},
+	{Name: "named middleware type forgets the token check", ExpectRule: "C24.R1", ExpectKey: "delegation", Edits: []Edit{
+		{File: c24File, Old: "func (s *Server) requireAuth(next http.Handler) http.Handler {\n\treturn http.HandlerFunc(func(w http.ResponseWriter, r *http.Request) {", New: "type tokenGate struct {\n\tsrv  *Server\n\tnext http.Handler\n}\n\nfunc (s *Server) requireAuth(next http.Handler) http.Handler {\n\treturn &tokenGate{srv: s, next: next}\n}\n\nfunc (g *tokenGate) ServeHTTP(w http.ResponseWriter, r *http.Request) {\n\ts, next := g.srv, g.next\n\t{"},
+		{File: c24File, Old: "\t\tnext.ServeHTTP(w, r)\n\t})\n}", New: "\t\tnext.ServeHTTP(w, r)\n\t}\n}"},
+		{File: c24File, Old: "if token == \"\" || !s.validateToken(token) {", New: "if token == \"\" && !s.validateToken(token) {"},
+	}},
+	{Name: "rewrite: exempt set as a constant slice searched with slices.Contains", Edits: []Edit{
+		{File: c24File, Old: "\t\"sort\"\n", New: "\t\"slices\"\n\t\"sort\"\n"},
+		{File: c24File, Old: "var authExemptPaths = map[string]bool{\n\t\"/health\":  true,\n\t\"/healthz\": true,\n\t\"/ready\":   true,\n\t\"/\":        true,\n\t\"/logo.png\": true,\n}", New: "var authExemptPaths = []string{\"/\", \"/logo.png\", \"/health\", \"/healthz\", \"/ready\"}"},
+		{File: c24File, Old: "if authExemptPaths[r.URL.Path] {", New: "if slices.Contains(authExemptPaths, r.URL.Path) {"},
+	}},
+	{Name: "exempt slice with an extra entry", ExpectRule: "C24.R2", ExpectKey: "exempt path /agents", Edits: []Edit{
+		{File: c24File, Old: "\t\"sort\"\n", New: "\t\"slices\"\n\t\"sort\"\n"},
+		{File: c24File, Old: "var authExemptPaths = map[string]bool{\n\t\"/health\":  true,\n\t\"/healthz\": true,\n\t\"/ready\":   true,\n\t\"/\":        true,\n\t\"/logo.png\": true,\n}", New: "var authExemptPaths = []string{\"/\", \"/logo.png\", \"/health\", \"/healthz\", \"/ready\", \"/agents\"}"},
+		{File: c24File, Old: "if authExemptPaths[r.URL.Path] {", New: "if slices.Contains(authExemptPaths, r.URL.Path) {"},
+	}},
+	{Name: "exempt slice extended at run time", ExpectRule: "C24.R2", ExpectKey: "reassigned", Edits: []Edit{
+		{File: c24File, Old: "\t\"sort\"\n", New: "\t\"slices\"\n\t\"sort\"\n"},
+		{File: c24File, Old: "var authExemptPaths = map[string]bool{\n\t\"/health\":  true,\n\t\"/healthz\": true,\n\t\"/ready\":   true,\n\t\"/\":        true,\n\t\"/logo.png\": true,\n}", New: "var authExemptPaths = []string{\"/\", \"/logo.png\", \"/health\", \"/healthz\", \"/ready\"}"},
+		{File: c24File, Old: "if authExemptPaths[r.URL.Path] {", New: "if slices.Contains(authExemptPaths, r.URL.Path) {"},
+		{File: c24File, Old: "func (s *Server) SetSleepProvider(provider SleepProvider) {\n", New: "func (s *Server) SetSleepProvider(provider SleepProvider) {\n\tauthExemptPaths = append(authExemptPaths, \"/sleep/status\")\n"},
+	}},
+	{Name: "rewrite: wrapping decision extracted into a guard helper", Edits: []Edit{
+		{File: c24File, Old: "\tvar handler http.Handler = mux\n\tif cfg.TokenHash != \"\" {\n\t\thandler = s.requireAuth(mux)\n\t}\n", New: "\thandler := s.guard(mux)\n"},
+		{File: c24File, Old: "// SetRemoteProvider sets the remote status provider.", New: "func (s *Server) guard(router http.Handler) http.Handler {\n\tif s.cfg.TokenHash == \"\" {\n\t\treturn router\n\t}\n\treturn s.requireAuth(router)\n}\n\n// SetRemoteProvider sets the remote status provider."},
+	}},
+	{Name: "guard helper with the token test inverted", ExpectRule: "C24.R3", ExpectKey: "server handler", Edits: []Edit{
+		{File: c24File, Old: "\tvar handler http.Handler = mux\n\tif cfg.TokenHash != \"\" {\n\t\thandler = s.requireAuth(mux)\n\t}\n", New: "\thandler := s.guard(mux)\n"},
+		{File: c24File, Old: "// SetRemoteProvider sets the remote status provider.", New: "func (s *Server) guard(router http.Handler) http.Handler {\n\tif s.cfg.TokenHash != \"\" {\n\t\treturn router\n\t}\n\treturn s.requireAuth(router)\n}\n\n// SetRemoteProvider sets the remote status provider."},
+	}},
+	{Name: "rewrite: wrapping decided by a switch on 0 < len(TokenHash)", Edits: []Edit{
+		{File: c24File, Old: "\tvar handler http.Handler = mux\n\tif cfg.TokenHash != \"\" {\n\t\thandler = s.requireAuth(mux)\n\t}\n", New: "\ttokenConfigured := 0 < len(cfg.TokenHash)\n\tvar handler http.Handler\n\tswitch {\n\tcase tokenConfigured:\n\t\thandler = s.requireAuth(mux)\n\tdefault:\n\t\thandler = mux\n\t}\n"},
+	}},
+	{Name: "rewrite: table-driven group mounting over a route struct", Edits: []Edit{
+		{File: c24File, Old: "\tif cfg.EnableRemoteAPI {\n\t\tmux.HandleFunc(\"/agents\", s.handleListAgents)\n\t\tmux.HandleFunc(\"/agents/\", s.handleAgentInfo)\n\t\tmux.HandleFunc(\"/routes/advertise\", s.handleTriggerAdvertise)\n\t\tmux.HandleFunc(\"/routes/manage\", s.handleRouteManage)\n\t\tmux.HandleFunc(\"/forward/manage\", s.handleForwardManage)\n\t\tmux.HandleFunc(\"/display-name/manage\", s.handleDisplayNameManage)\n\t\t// Sleep mode endpoints\n\t\tmux.HandleFunc(\"/sleep\", s.handleSleep)\n\t\tmux.HandleFunc(\"/sleep/status\", s.handleSleepStatus)\n\t\tmux.HandleFunc(\"/wake\", s.handleWake)\n\t} else {\n\t\tmux.HandleFunc(\"/agents\", disabledHandler(\"agents\"))\n\t\tmux.HandleFunc(\"/agents/\", disabledHandler(\"agents\"))\n\t\tmux.HandleFunc(\"/routes/advertise\", disabledHandler(\"routes_advertise\"))\n\t\tmux.HandleFunc(\"/routes/manage\", disabledHandler(\"routes_manage\"))\n\t\tmux.HandleFunc(\"/forward/manage\", disabledHandler(\"forward_manage\"))\n\t\tmux.HandleFunc(\"/display-name/manage\", disabledHandler(\"display_name_manage\"))\n\t\tmux.HandleFunc(\"/sleep\", disabledHandler(\"sleep\"))\n\t\tmux.HandleFunc(\"/sleep/status\", disabledHandler(\"sleep_status\"))\n\t\tmux.HandleFunc(\"/wake\", disabledHandler(\"wake\"))\n\t}\n", New: "\tmountGroup(mux, cfg.EnableRemoteAPI, []endpointRoute{\n\t\t{\"/agents\", \"agents\", s.handleListAgents},\n\t\t{\"/agents/\", \"agents\", s.handleAgentInfo},\n\t\t{\"/routes/advertise\", \"routes_advertise\", s.handleTriggerAdvertise},\n\t\t{\"/routes/manage\", \"routes_manage\", s.handleRouteManage},\n\t\t{\"/forward/manage\", \"forward_manage\", s.handleForwardManage},\n\t\t{\"/display-name/manage\", \"display_name_manage\", s.handleDisplayNameManage},\n\t\t{\"/sleep\", \"sleep\", s.handleSleep},\n\t\t{\"/sleep/status\", \"sleep_status\", s.handleSleepStatus},\n\t\t{\"/wake\", \"wake\", s.handleWake},\n\t})\n"},
+		{File: c24File, Old: "// SetRemoteProvider sets the remote status provider.", New: "type endpointRoute struct {\n\tpattern string\n\tlabel   string\n\tserve   http.HandlerFunc\n}\n\nfunc mountGroup(mux *http.ServeMux, enabled bool, routes []endpointRoute) {\n\tfor _, route := range routes {\n\t\tserve := route.serve\n\t\tif !enabled {\n\t\t\tserve = disabledHandler(route.label)\n\t\t}\n\t\tmux.HandleFunc(route.pattern, serve)\n\t}\n}\n\n// SetRemoteProvider sets the remote status provider."},
+	}},
+	{Name: "table-driven mounting picks the 404 stub for the enabled group", ExpectRule: "C24.R5", ExpectKey: "EnableRemoteAPI pattern", Edits: []Edit{
+		{File: c24File, Old: "\tif cfg.EnableRemoteAPI {\n\t\tmux.HandleFunc(\"/agents\", s.handleListAgents)\n\t\tmux.HandleFunc(\"/agents/\", s.handleAgentInfo)\n\t\tmux.HandleFunc(\"/routes/advertise\", s.handleTriggerAdvertise)\n\t\tmux.HandleFunc(\"/routes/manage\", s.handleRouteManage)\n\t\tmux.HandleFunc(\"/forward/manage\", s.handleForwardManage)\n\t\tmux.HandleFunc(\"/display-name/manage\", s.handleDisplayNameManage)\n\t\t// Sleep mode endpoints\n\t\tmux.HandleFunc(\"/sleep\", s.handleSleep)\n\t\tmux.HandleFunc(\"/sleep/status\", s.handleSleepStatus)\n\t\tmux.HandleFunc(\"/wake\", s.handleWake)\n\t} else {\n\t\tmux.HandleFunc(\"/agents\", disabledHandler(\"agents\"))\n\t\tmux.HandleFunc(\"/agents/\", disabledHandler(\"agents\"))\n\t\tmux.HandleFunc(\"/routes/advertise\", disabledHandler(\"routes_advertise\"))\n\t\tmux.HandleFunc(\"/routes/manage\", disabledHandler(\"routes_manage\"))\n\t\tmux.HandleFunc(\"/forward/manage\", disabledHandler(\"forward_manage\"))\n\t\tmux.HandleFunc(\"/display-name/manage\", disabledHandler(\"display_name_manage\"))\n\t\tmux.HandleFunc(\"/sleep\", disabledHandler(\"sleep\"))\n\t\tmux.HandleFunc(\"/sleep/status\", disabledHandler(\"sleep_status\"))\n\t\tmux.HandleFunc(\"/wake\", disabledHandler(\"wake\"))\n\t}\n", New: "\tmountGroup(mux, cfg.EnableRemoteAPI, []endpointRoute{\n\t\t{\"/agents\", \"agents\", s.handleListAgents},\n\t\t{\"/agents/\", \"agents\", s.handleAgentInfo},\n\t\t{\"/routes/advertise\", \"routes_advertise\", s.handleTriggerAdvertise},\n\t\t{\"/routes/manage\", \"routes_manage\", s.handleRouteManage},\n\t\t{\"/forward/manage\", \"forward_manage\", s.handleForwardManage},\n\t\t{\"/display-name/manage\", \"display_name_manage\", s.handleDisplayNameManage},\n\t\t{\"/sleep\", \"sleep\", s.handleSleep},\n\t\t{\"/sleep/status\", \"sleep_status\", s.handleSleepStatus},\n\t\t{\"/wake\", \"wake\", s.handleWake},\n\t})\n"},
+		{File: c24File, Old: "// SetRemoteProvider sets the remote status provider.", New: "type endpointRoute struct {\n\tpattern string\n\tlabel   string\n\tserve   http.HandlerFunc\n}\n\nfunc mountGroup(mux *http.ServeMux, enabled bool, routes []endpointRoute) {\n\tfor _, route := range routes {\n\t\tserve := route.serve\n\t\tif enabled {\n\t\t\tserve = disabledHandler(route.label)\n\t\t}\n\t\tmux.HandleFunc(route.pattern, serve)\n\t}\n}\n\n// SetRemoteProvider sets the remote status provider."},
+	}},
+	{Name: "rewrite: disabled registrations as a loop over the patterns with one NotFound handler", Edits: []Edit{
+		{File: c24File, Old: "\t\tmux.HandleFunc(\"/agents\", disabledHandler(\"agents\"))\n\t\tmux.HandleFunc(\"/agents/\", disabledHandler(\"agents\"))\n\t\tmux.HandleFunc(\"/routes/advertise\", disabledHandler(\"routes_advertise\"))\n\t\tmux.HandleFunc(\"/routes/manage\", disabledHandler(\"routes_manage\"))\n\t\tmux.HandleFunc(\"/forward/manage\", disabledHandler(\"forward_manage\"))\n\t\tmux.HandleFunc(\"/display-name/manage\", disabledHandler(\"display_name_manage\"))\n\t\tmux.HandleFunc(\"/sleep\", disabledHandler(\"sleep\"))\n\t\tmux.HandleFunc(\"/sleep/status\", disabledHandler(\"sleep_status\"))\n\t\tmux.HandleFunc(\"/wake\", disabledHandler(\"wake\"))\n", New: "\t\tgone := http.HandlerFunc(http.NotFound)\n\t\tfor _, pattern := range []string{\"/agents\", \"/agents/\", \"/routes/advertise\", \"/routes/manage\", \"/forward/manage\", \"/display-name/manage\", \"/sleep\", \"/sleep/status\", \"/wake\"} {\n\t\t\tmux.Handle(pattern, gone)\n\t\t}\n"},
+	}},
+	{Name: "loop over disabled patterns registers a live handler", ExpectRule: "C24.R5", ExpectKey: "EnableRemoteAPI pattern /agents/", Edits: []Edit{
+		{File: c24File, Old: "\t\tmux.HandleFunc(\"/agents\", disabledHandler(\"agents\"))\n\t\tmux.HandleFunc(\"/agents/\", disabledHandler(\"agents\"))\n\t\tmux.HandleFunc(\"/routes/advertise\", disabledHandler(\"routes_advertise\"))\n\t\tmux.HandleFunc(\"/routes/manage\", disabledHandler(\"routes_manage\"))\n\t\tmux.HandleFunc(\"/forward/manage\", disabledHandler(\"forward_manage\"))\n\t\tmux.HandleFunc(\"/display-name/manage\", disabledHandler(\"display_name_manage\"))\n\t\tmux.HandleFunc(\"/sleep\", disabledHandler(\"sleep\"))\n\t\tmux.HandleFunc(\"/sleep/status\", disabledHandler(\"sleep_status\"))\n\t\tmux.HandleFunc(\"/wake\", disabledHandler(\"wake\"))\n", New: "\t\tfor _, pattern := range []string{\"/agents\", \"/agents/\", \"/routes/advertise\", \"/routes/manage\", \"/forward/manage\", \"/display-name/manage\", \"/sleep\", \"/sleep/status\", \"/wake\"} {\n\t\t\tmux.HandleFunc(pattern, s.handleAgentInfo)\n\t\t}\n"},
+	}},
+	{Name: "rewrite: validator with a single RUnlock, swapped operands and a nested cache update", Edits: []Edit{
+		{File: c24File, Old: "\ts.tokenCacheMu.RLock()\n\tif s.tokenCacheValid && subtle.ConstantTimeCompare(tokenSHA[:], s.cachedTokenSHA[:]) == 1 {\n\t\ts.tokenCacheMu.RUnlock()\n\t\treturn true\n\t}\n\ts.tokenCacheMu.RUnlock()\n\n\t// Slow path: bcrypt verify\n\tif bcrypt.CompareHashAndPassword([]byte(s.cfg.TokenHash), []byte(token)) != nil {\n\t\treturn false\n\t}\n\n\t// Update cache on success\n\ts.tokenCacheMu.Lock()\n\ts.cachedTokenSHA = tokenSHA\n\ts.tokenCacheValid = true\n\ts.tokenCacheMu.Unlock()\n\n\treturn true\n", New: "\ts.tokenCacheMu.RLock()\n\tcached := s.tokenCacheValid && 1 == subtle.ConstantTimeCompare(s.cachedTokenSHA[:], tokenSHA[:])\n\ts.tokenCacheMu.RUnlock()\n\tif cached {\n\t\treturn true\n\t}\n\n\tverified := bcrypt.CompareHashAndPassword([]byte(s.cfg.TokenHash), []byte(token)) == nil\n\tif verified {\n\t\ts.tokenCacheMu.Lock()\n\t\ts.tokenCacheValid = true\n\t\ts.cachedTokenSHA = tokenSHA\n\t\ts.tokenCacheMu.Unlock()\n\t}\n\treturn verified\n"},
+	}},
+	{Name: "validator trusts the cache-valid flag alone", ExpectRule: "C24.R4", ExpectKey: "validateToken", Edits: []Edit{
+		{File: c24File, Old: "\ts.tokenCacheMu.RLock()\n\tif s.tokenCacheValid && subtle.ConstantTimeCompare(tokenSHA[:], s.cachedTokenSHA[:]) == 1 {\n\t\ts.tokenCacheMu.RUnlock()\n\t\treturn true\n\t}\n\ts.tokenCacheMu.RUnlock()\n\n\t// Slow path: bcrypt verify\n\tif bcrypt.CompareHashAndPassword([]byte(s.cfg.TokenHash), []byte(token)) != nil {\n\t\treturn false\n\t}\n\n\t// Update cache on success\n\ts.tokenCacheMu.Lock()\n\ts.cachedTokenSHA = tokenSHA\n\ts.tokenCacheValid = true\n\ts.tokenCacheMu.Unlock()\n\n\treturn true\n", New: "\ts.tokenCacheMu.RLock()\n\tcached := s.tokenCacheValid && 1 == subtle.ConstantTimeCompare(s.cachedTokenSHA[:], tokenSHA[:])\n\ts.tokenCacheMu.RUnlock()\n\tif cached || s.tokenCacheValid {\n\t\treturn true\n\t}\n\n\tverified := bcrypt.CompareHashAndPassword([]byte(s.cfg.TokenHash), []byte(token)) == nil\n\tif verified || cached {\n\t\ts.tokenCacheMu.Lock()\n\t\ts.tokenCacheValid = true\n\t\ts.cachedTokenSHA = tokenSHA\n\t\ts.tokenCacheMu.Unlock()\n\t}\n\treturn verified\n"},
 	}},
 }
